@@ -129,27 +129,35 @@ def judge(item):
                     res["allowed_imprecise"] += 1
             else:
                 kind = ss[0].kind
-                if depends(clo[""], ss, loc, all_positions=True):
-                    why = {"call": "wrong-argument-position", "mcall": "wrong-argument-position",
-                           "fwrite": "wrong-argument-position:field-write-receiver", "rwrite": "wrong-argument-position:record-write-other-key"}[kind]
-                    if kind == "mcall":
-                        # only through the receiver?
-                        n = ss[0].node
-                        via_args = any(loc in clo[""].expr_reach(kf, a) for a in n.args)
-                        if not via_args:
-                            why = "wrong-argument-position:method-call-receiver"
-                    if kind in ("call", "mcall") and FROM_CODE is not None and \
-                            FROM_CODE.matches("sink", os.path.join(proj_path, kf), kl, txt[1] or "", ignore_unit=True):
-                        # sink_from_code.yaml has a rule for this line whose symbol occurs in the statement text: lian applies it
-                        # to every file when it computes the sink's tag, and then every operand counts
-                        why = "rule-restriction-ignored:unit:from-code-sink-rule"
-                elif depends(closure(("callee",)), ss, loc):
-                    why = "analysed-callee-drops-value"
-                elif depends(closure(("callee", "field")), ss, loc):
-                    why = "unrelated-object-or-field"
-                else:
-                    why = "no-dependence"
-        if why is not None:
+                # smallest set of relaxations that would justify the flow; each one is a mechanism of its own
+                found = None
+                for relax in (("positions",), ("callee",), ("field",), ("positions", "callee"), ("positions", "field"),
+                              ("callee", "field"), ("positions", "callee", "field")):
+                    c = closure(tuple(r for r in relax if r != "positions"))
+                    if depends(c, ss, loc, all_positions="positions" in relax):
+                        found = relax
+                        break
+                whys = []
+                for r in found or ():
+                    if r == "callee":
+                        whys.append("analysed-callee-drops-value")
+                    elif r == "field":
+                        whys.append("unrelated-object-or-field")
+                    else:
+                        w = {"call": "wrong-argument-position", "mcall": "wrong-argument-position",
+                             "fwrite": "wrong-argument-position:field-write-receiver",
+                             "rwrite": "wrong-argument-position:record-write-other-key"}[kind]
+                        c = closure(tuple(x for x in found if x != "positions"))
+                        if kind == "mcall" and not any(loc in c.expr_reach(kf, a) for a in ss[0].node.args):
+                            w = "wrong-argument-position:method-call-receiver"
+                        if kind in ("call", "mcall") and FROM_CODE is not None and \
+                                FROM_CODE.matches("sink", os.path.join(proj_path, kf), kl, txt[1] or "", ignore_unit=True):
+                            # sink_from_code.yaml has a rule for this line whose symbol occurs in the statement text: lian applies
+                            # it to every file when it computes the sink's tag, and then every operand counts
+                            w = "rule-restriction-ignored:unit:from-code-sink-rule"
+                        whys.append(w)
+                why = whys if whys else "no-dependence"
+        for why in ([why] if isinstance(why, str) else (why or [])):
             res["why_counts"][why] = res["why_counts"].get(why, 0) + 1
             snk_g = next((g for g in case["gadgets"] if g.get("snk_at") and tuple(g["snk_at"]) == (kf, kl)), None)
             src_g = next((g for g in case["gadgets"] if g.get("src_at") and tuple(g["src_at"]) == (sf, sl)), None)
@@ -353,7 +361,7 @@ def main():
         chk.require("dynamic flows checked to lie inside the closure", 100 if not thorough else 2000)
         per = 8 if not thorough else 150
         for kd in (["twist:wrong-pos", "twist:tainted-receiver", "twist:other-key", "twist:near-miss-name", "rule:never", "rule:ext",
-                    "rule:away:line", "rule:away:unit", "rule:away:language"] + [f"broken:{b}" for b in gen_flow.BROKEN]):
+                    "rule:away:line", "rule:away:unit", "rule:away:language", "rule:away:operation"] + [f"broken:{b}" for b in gen_flow.BROKEN]):
             chk.require(f"gadgets: {kd}", per)
     else:
         chk.nontrivial_case("replay-a")
